@@ -34,7 +34,7 @@ CHECKS = {
             'Provider side only; one MDIB file; depth/alphabet bounds as in the evidence. Version bookkeeping of the oracle is '
             'independent of handle_version_lookup.', '3/C02'),
     'C03': ('H+I', 'exhaustive crash-point enumeration over transaction bodies plus exhaustive enumeration (by reflection) of nested attribute paths of every handed-out object, against full canonical MDIB snapshots',
-            'Extensions: every keyword combination of mk_context_state / add_state (handle none/existing/new x adjust_state_version x set_associated) as all-or-nothing calls; with periodic reports on, writing to a transaction result must not change the states retained for the periodic report of that commit. '
+            'Extensions: entities refreshed with entity.update() after a later commit made them stale are handed-out objects too (nested writes must stay private); every keyword combination of mk_context_state / add_state (handle none/existing/new x adjust_state_version x set_associated) as all-or-nothing calls; with periodic reports on, writing to a transaction result must not change the states retained for the periodic report of that commit. '
             'For 13 transaction bodies covering every transaction kind through the classic and the entity interface, an exception is '
             'raised after every non-empty ordered selection of the body\'s API calls and in the pre-commit hook; 29 calls the API must '
             'reject and 3 commit paths the API can make fail are issued alone and after a valid modification; every nested attribute '
@@ -85,8 +85,8 @@ CHECKS = {
             'scenario with bound 2; thorough: bound 3 and all locks): at quiescence exact mirror, no exception, consistent lookups.',
             'Consumer state is restored between delivery sequences from deep copies of the tables (self-checked); provider restart is '
             'modelled by assigning new ids; (c) models the deferred dispatcher by a FIFO between endpoint and a delivery thread.', '3/C06'),
-    'C07': ('S', 'stateless preemption-bounded schedule exploration (CHESS-style iterative context bounding) of real request and writer threads under a cooperative baton scheduler; scheduling points at every lock acquire/release',
-            'Extensions: schedule tree split over the workers (run_partitioned), thorough caps per subtree group. '
+    'C07': ('S', 'stateless preemption-bounded schedule exploration (CHESS-style iterative context bounding) of real request and writer threads under a cooperative baton scheduler; scheduling points at every lock acquire/release, plus a statement-granularity pass inside the handler and commit functions',
+            'Extensions: statement-granularity pass - every statement of the Get handlers, the MDIB reconstruction and the commit path is a scheduling point (sys.settrace line events in the scheduled threads), one preemption (thorough two), 12 scenarios; scenarios in which the requested handle itself is created / deleted by the concurrent transaction; InstanceId-only changes between absent / 0 / 1 / 2^40 with the SequenceId unchanged; schedule tree split over the workers (run_partitioned), thorough caps per subtree group. '
             '18 scenarios of 1-2 Get request threads (GetMdib, GetMdDescription all/one handle, GetMdState all/some handles, '
             'GetContextStates all/one descriptor - real request bytes through the real provider dispatch chain and handlers) against '
             '1-2 writer threads (metric, location, patient, descriptor update/create/delete transactions) run as real Python threads of '
@@ -96,11 +96,10 @@ CHECKS = {
             '(thorough 3; a preemption at an mdib-level lock costs 1, at a table/pool lock 2) are executed, each on a fresh provider. '
             'The harness snapshots the MDIB inside every commit; each response is re-parsed and its stated MdibVersion, entity set and '
             'every descriptor/state are compared with the snapshot of exactly that version.',
-            'Lock-granularity only (the granularity the property states); races between statements not separated by a lock operation '
-            'are not explored; sync subscription manager without subscriber; one schedule is replayed twice per run as determinism '
+            'Lock granularity with bound 2/3, statement granularity (anchor functions only) with bound 1/2; sync subscription manager without subscriber; one schedule is replayed twice per run as determinism '
             'self-check.', '3/C07'),
-    'C08': ('H', 'explicit-state breadth-first search with canonical-state dedup over eventing histories on the four real subscription managers inside the real provider dispatch chain, against a reference model of subscription liveness on the same virtual clock',
-            'Extensions: mid-delivery events: while a report is handed to the first subscriber the other one unsubscribes (second real thread) or all subscriptions expire - nothing may reach it afterwards; timeout faults also in the quick tier. '
+    'C08': ('H+S', 'explicit-state breadth-first search with canonical-state dedup over eventing histories on the four real subscription managers inside the real provider dispatch chain, against a reference model of subscription liveness on the same virtual clock; preemption-bounded schedule exploration (lock and statement granularity) of Renew/GetStatus racing with report delivery and housekeeping',
+            'Extensions: schedule part (c08_sched): Renew(5) / Renew(99) / GetStatus of a live subscription (11 s granted, 8 s elapsed) served in one thread while another thread delivers a metric report and a third runs one housekeeping pass, scheduling points at every lock operation and every statement of provider/subscriptionmgr*.py, all schedules with one preemption (thorough: two, all four managers): the report must reach the subscriber, the subscription must stay in the table, GetStatus afterwards agrees with the model; mid-delivery events: while a report is handed to the first subscriber the other one unsubscribes (second real thread) or all subscriptions expire - nothing may reach it afterwards; timeout faults also in the quick tier. '
             'BFS to depth 4 (thorough 6) over 34 events - Subscribe (expires omitted / 5 / 99 > maximum), Renew, GetStatus, Unsubscribe, '
             'the same three naming an unknown identifier, metric and alert reports, clock ticks of 2 s and 4 s across expiry, one pass of '
             'the real housekeeping loop body, delivery-fault mode per subscriber (ok, HTTP 500, refused; thorough also timeout, not '
@@ -114,7 +113,7 @@ CHECKS = {
             'One provider object is reused between histories (subscription table, client pool, wire log, clock, uuid counter are '
             'reset); expiry instants are never hit exactly; "sent" means handed to the subscriber-facing SOAP client.', '3/C08'),
     'C09': ('I+H', 'exhaustive enumeration of request sequences on the real provider stack (worker loop body driven explicitly) and of all orderings of response and reports on the real consumer OperationsManager; oracle = regular language of invocation-state words per transaction id',
-            'Extensions: bursts of 9-13 queued requests against the 10-entry operation queue (a Wait answer must be followed by Start and a final state); consumer handle completion judged by a reference rule (failing response completes at once, otherwise all parts up to the first final report); schedule part: 2-3 concurrent request threads, bound 2, transaction ids unique. '
+            'Extensions: raising handlers with awkward exception texts and types (control characters, XML markup, non-ASCII, lone surrogates, empty, 70 kB, CR/LF): the Fail report with error information must still be produced; bursts of 9-13 queued requests against the 10-entry operation queue (a Wait answer must be followed by Start and a final state); consumer handle completion judged by a reference rule (failing response completes at once, otherwise all parts up to the first final report); schedule part: 2-3 concurrent request threads, bound 2, transaction ids unique. '
             'Provider: every single request over 5 operation kinds (SetString, SetValue, Activate, SetContextState, SetAlertState) x '
             'direct/queued x handler {real, ok, ok-with-modification, returns Fail, raises}, the unknown operation, and pairs of requests '
             'from two consumers are sent through the real consumer service clients; the real SCO registry and worker loop body execute '
